@@ -61,7 +61,7 @@ Oracles (all on the real code alone)
                             from the same shared objects / the same CircuitBuilder, is the lexical reference.
 
 Sizes: quick n=500 (about 8 s on an idle machine: 500 generated + 9 fixed programs, 4 routes each, 1-2 defect sets on
-3 routes), thorough n=3000 (all 6 routes, all observations, defect sets on 4 routes: about 75 s).  `corr` is empty (no
+3 routes), thorough n=3000 (all 6 routes, all observations, defect sets on 4 routes: 75-100 s).  `corr` is empty (no
 Lean model here).  Every kept failure carries the program tree, the route and the salt; `replay` re-runs that route.
 Importable: `run(seed, n, driver, thorough) -> dict`, `replay(case, driver) -> dict`.
 """
